@@ -191,6 +191,11 @@ pub fn compare_grid(native: &ScalarUDF, foreign: &ScalarUDF, plan: &Plan, vary: 
     let want = |m: &str| mode_filter.map(|f| f == m).unwrap_or(true);
     let mut check = |mode: &str, row: Option<usize>, args: &[ColumnarValue], n: usize, findings: &mut Vec<Finding>, st: &mut GridStats| {
         let a = invoke(native, args, n, &cfg);
+        if matches!(&a, Out::Fail(e) if e.starts_with("panic:")) {
+            // a panic inside a function called through the FFI cannot unwind and would abort the process
+            engine::NATIVE_PANICS_SKIPPED.fetch_add(1, std::sync::atomic::Ordering::Relaxed);
+            return;
+        }
         let b = invoke(foreign, args, n, &cfg);
         st.invocations += 2;
         let bad = match (&a, &b) {
@@ -261,8 +266,8 @@ pub fn compare_grid(native: &ScalarUDF, foreign: &ScalarUDF, plan: &Plan, vary: 
         }
         for v in variants {
             let refs: Vec<Option<&ScalarValue>> = v.iter().map(|x| x.as_ref()).collect();
-            let n = mc_core::catch(|| native.return_field_from_args(ReturnFieldArgs { arg_fields: &fields, scalar_arguments: &refs }).map_err(|e| e.to_string()));
-            let f = mc_core::catch(|| foreign.return_field_from_args(ReturnFieldArgs { arg_fields: &fields, scalar_arguments: &refs }).map_err(|e| e.to_string()));
+            let n = engine::catch_native(|| native.return_field_from_args(ReturnFieldArgs { arg_fields: &fields, scalar_arguments: &refs }).map_err(|e| e.to_string()));
+            let f = engine::catch_foreign(|| foreign.return_field_from_args(ReturnFieldArgs { arg_fields: &fields, scalar_arguments: &refs }).map_err(|e| e.to_string()));
             st.invocations += 2;
             let bad = match (&n, &f) {
                 (Ok(Ok(a)), Ok(Ok(b))) => {
